@@ -764,6 +764,27 @@ proof fn lemma_untaken_do_not_cover(p: Seq<Result<Value, MergeError>>, cs: int, 
     let _ = p[k];
 }
 
+// ---------------- constructor shim ----------------
+spec fn streams(s: Seq<VIter>) -> Seq<Seq<Result<Value, MergeError>>> { Seq::new(s.len(), |i: int| s[i].rest()) }
+/// `sections.into_iter().map(|s| (s, None)).collect()`: every stream paired with an empty parking slot, in order
+#[verifier::external_body]
+fn pair_with_none(sections: Vec<VIter>) -> (r: Vec<(VIter, Option<Value>)>)
+    ensures r@.len() == sections@.len(), forall|i: int| 0 <= i < r@.len() ==> (#[trigger] r@[i]).0 == sections@[i] && r@[i].1 is None,
+{ unimplemented!() }
+proof fn lemma_initial_state(secs: Seq<(VIter, Option<Value>)>, ss: Seq<VIter>, limit: int)
+    requires secs.len() == ss.len(), forall|i: int| 0 <= i < secs.len() ==> (#[trigger] secs[i]).0 == ss[i] && secs[i].1 is None,
+    ensures
+        pends(secs) == streams(ss),
+        flat(Seq::<Win>::empty()) == Seq::<Value>::empty(),
+        stream_sorted(Seq::<Win>::empty(), 0), windows_ok(Seq::<Win>::empty()), chain_ok(Seq::<Win>::empty(), 0, pends(secs)),
+{
+    reveal_with_fuel(flat, 1); reveal(stream_sorted); reveal(sorted_in); reveal(windows_ok); reveal(chain_ok);
+    assert forall|i: int| 0 <= i < secs.len() implies pends(secs)[i] == streams(ss)[i] by {
+        assert(opt_seq(secs[i].1) + secs[i].0.rest() =~= ss[i].rest());
+    }
+    assert(pends(secs) =~= streams(ss));
+}
+
 // =====================================================================================
 // A. one section's contribution to the window: body of
 //    `'sections: for (section, last) in &mut self.sections { 'section: loop { .. } }`   (R9 outline)
@@ -925,7 +946,7 @@ fn next_section(section: &mut VIter, last: &mut Option<Value>, data: &mut Vec<f6
 { let i = cell_mut(data, i__);
                         *i = *i + (f64_of_f32(value));
                     
-                            proof { assert(data@ =~= add_range(d_in, data_start as int, i__ + 1, f64_of(value))); }
+                            proof { assert(data@ =~= add_range(d_in, data_start as int, i__ + 1, f64_of(value))); } 
 }
                     max_data_len = max_data_len.max(data_end);
                     max_sections = max_sections + (1);
@@ -1257,7 +1278,7 @@ fn next(&mut self) -> (r: Option<Result<Value, MergeError>>)
 
 
         proof {
-            assert(buf_of(self.next_sections).len() == 0);
+            assert(buf_of(self.next_sections).len() == 0); 
             assert(pending_out(*self) =~= opt_v(self.last_val));
             reveal(inputs_ok);
         }
@@ -1286,7 +1307,8 @@ fn next(&mut self) -> (r: Option<Result<Value, MergeError>>)
                 bound + DATA_SIZE as int - self.next_start as int,
 {
             let current_start = self.next_start;
-            self.next_start = current_start + DATA_SIZE as u32;
+            // The last window may reach past u32::MAX; nothing can lie beyond it
+            self.next_start = current_start.saturating_add(DATA_SIZE as u32);
 
             let mut data = vec![0f64; DATA_SIZE];
 
@@ -1381,6 +1403,38 @@ fn next(&mut self) -> (r: Option<Result<Value, MergeError>>)
             }
 }
     }
+}
+
+// ---------------- the constructor: establishes the state invariant for the first call ----------------
+fn merge_sections_many(sections: Vec<VIter>, Ghost(limit): Ghost<int>) -> (r: ValueIter)
+    requires
+        
+        // C15 input assumption: every stream sorted, disjoint, start <= end; no value ends beyond `limit`
+        inputs_ok(streams(sections@), 0, limit),
+    ensures
+        
+        !r.error && r.next_start == 0 && r.next_sections is None && r.last_val is None,
+        pends(r.sections@) == streams(sections@),
+        r.hist@.wins.len() == 0 && r.hist@.emitted.len() == 0 && r.hist@.limit == limit,
+        
+        live_inv(r),
+{
+    let ghost ss = sections@;
+
+    let r__ = ValueIter { hist: Ghost(Hist { wins: Seq::empty(), emitted: Seq::empty(), limit: limit }),
+        error: false,
+        sections: pair_with_none(sections),
+        next_sections: None,
+        last_val: None,
+        next_start: 0,
+    }
+
+    ;
+    proof {
+        lemma_initial_state(r__.sections@, ss, limit);
+        assert(r__.hist@.emitted + pending_out(r__) =~= Seq::<Value>::empty());
+    }
+    r__
 }
 
 } // verus!
